@@ -88,6 +88,11 @@ theorem step_frame (s s' : St) (e : Ev) (hs : step s e = some s') (he : e.isCall
     split at hs
     · simp at hs; subst hs; exact ⟨rfl, rfl, rfl⟩
     · simp at hs
+  | boff k b =>
+    simp only [step] at hs
+    split at hs
+    · simp at hs; subst hs; exact ⟨rfl, rfl, rfl⟩
+    · simp at hs
   | probe j c =>
     simp only [step] at hs
     split at hs
